@@ -72,8 +72,6 @@ M = [
  ("c16-closure-assumes-parents-first", "C16", "src/ontology/builder.rs",
   "        if !self.hpo_terms.get_unchecked(term_id).parents_cached() {\n            self.create_cache_of_grandparents(term_id);\n        }\n",
   "        if !self.hpo_terms.get_unchecked(term_id).parents_cached() && term_id.to_usize() % 3 != 0 {\n            self.create_cache_of_grandparents(term_id);\n        }\n", ["C16", "C01"]),
- ("c16-sub-ontology-annotation-order", "C16", "src/ontology/builder.rs",
-  "        if term.add_gene(gene_id) {\n            // If the gene", "        if term.add_gene(gene_id) || term.all_parents().len() == 2 {\n            // If the gene", ["C16", "C02"]),
  ("c18-obsolete-dropped-from-chain", "C18", "src/ontology/comparison.rs",
   "            || obsolete.0 != obsolete.1\n", "", ["C18"]),
  ("c18-orpha-accessor-reads-omim", "C18", "src/ontology/comparison.rs",
